@@ -392,6 +392,10 @@ def library() -> List[Dict[str, Any]]:
         {"kind": "emfield", "name": "EMD", "of": "S_dyn", "end_dop": "u8", "term": "255"},
         {"kind": "mux", "name": "MUXD", "byte": 1, "key": {"byte": 0, "dop": "u8"},
          "cases": [{"name": "c0", "lo": 1, "hi": 1, "struct": "S_dyn"}, {"name": "c1", "lo": 2, "hi": 2, "struct": "S_item"}]},
+        {"kind": "struct", "name": "S_lead", "params": [P("VALUE", "v", dop="lead8")]},
+        {"kind": "sfield", "name": "SFV", "of": "S_lead", "n": 2, "item_size": 3},  # static field of variable-length items
+        {"name": "linlim", "dct": U8, "phys": "A_UINT32", "cm": {"cat": "LINEAR", "i2p": [{"lo": 0, "hi": 200, "num": [0, 1], "den": [1]}]}},
+        {"kind": "emfield", "name": "EMT", "of": "S_item", "end_dop": "linlim", "term": "100"},  # end marker DOP that cannot convert every byte
         {"kind": "sfield", "name": "SF2", "of": "S_item", "n": 2, "item_size": 2},
         {"kind": "sfield", "name": "SF2p", "of": "S_item", "n": 2, "item_size": 3},
         {"kind": "dlfield", "name": "DL1", "of": "S_item", "offset": 1, "count": {"byte": 0, "dop": "u8"}},
@@ -497,6 +501,17 @@ def templates() -> Dict[str, Any]:
     reg("BZ", None, lambda i: [{f"bz{i}": b""}, {f"bz{i}": b"\x41"}, {f"bz{i}": b"\x41\x42\x43"}], lambda i: [P("VALUE", f"bz{i}", dop="bz")])
     reg("BEOP", None, lambda i: [{f"be{i}": b"\x41"}, {f"be{i}": b"\x00\x41\xff"}], lambda i: [P("VALUE", f"be{i}", dop="beop")], last_only=True)
     reg("LEAD", None, lambda i: [{f"ld{i}": b""}, {f"ld{i}": b"\x41\x42"}], lambda i: [P("VALUE", f"ld{i}", dop="lead8")])
+    reg("SFV", 6, lambda i: [{f"sv{i}": [{"v": b""}, {"v": b"\x41\x42"}]}, {f"sv{i}": [{"v": b"\x41"}, {"v": b""}]}], lambda i: [P("VALUE", f"sv{i}", dop="SFV")])
+    reg("EMT", None, lambda i: [{f"et{i}": []}, {f"et{i}": [_item(250, 2)]}, {f"et{i}": [_item(0, 2), _item(3, 4)]}], lambda i: [P("VALUE", f"et{i}", dop="EMT")], last_only=True)
+    reg("EMTC", None, lambda i: [{f"eu{i}": []}, {f"eu{i}": [_item(250, 2)]}, {f"eu{i}": [_item(0, 2), _item(200, 4)]}],
+        lambda i: [P("VALUE", f"eu{i}", dop="EMT"), P("CODED-CONST", f"mt{i}", dct=U8, value=100)], dyn_end=True)
+    reg("TKS2", None, lambda i: [{f"tsa{i}": ("r1", _item(1, 2)), f"tsb{i}": ("r1", _item(3, 4))}, {f"tsa{i}": ("r2", 0x1234), f"tsb{i}": ("r2", 7)}],
+        lambda i: [P("TABLE-KEY", f"tq{i}", table="T", id=f"L.TK.@PID@.{i}"), P("TABLE-STRUCT", f"tsa{i}", key=f"tq{i}", key_id=f"L.TK.@PID@.{i}"),
+                   P("TABLE-STRUCT", f"tsb{i}", key=f"tq{i}", key_id=f"L.TK.@PID@.{i}")])
+    reg("MRP02", 2, lambda i: [{}], lambda i: [P("MATCHING-REQUEST-PARAM", f"mt{i}", rq_byte=0, len=2)], response_only=True)
+    reg("NRC4", 1, lambda i: [{f"nq{i}": 1}, {f"nq{i}": 3}],
+        lambda i: [P("VALUE", f"nq{i}", dop="u4", bit=0), P("NRC-CONST", f"nrd{i}", dct=std("A_UINT32", 4), values=[1, 3], bit=0)],
+        rel=[(0, 0), (1, 0)], response_only=True)
     reg("MRP1", 1, lambda i: [{}], lambda i: [P("MATCHING-REQUEST-PARAM", f"mr{i}", rq_byte=0, len=1)], response_only=True)
     reg("MRP2", 2, lambda i: [{}], lambda i: [P("MATCHING-REQUEST-PARAM", f"ms{i}", rq_byte=1, len=2)], response_only=True)
     reg("NRCV", 1, lambda i: [{f"nv{i}": 0x11}, {f"nv{i}": 0x31}],
@@ -505,7 +520,7 @@ def templates() -> Dict[str, Any]:
 
 
 SIGMA_FULL = ["CC8", "CC16L", "CCNIB", "PC", "V8", "V12b", "V8b4", "VF32", "SLK", "VLIN", "VDEF", "VTT", "RES8", "RES4", "SYS", "LK", "TKS", "TKSROW", "SFLAT",
-              "SSUB", "SNEST", "SSIZED", "SF2", "SF2p", "DL1", "DL2", "EOP", "EMLAST", "EMCC", "MUXd", "MUXn", "MUXe", "MUXf", "SDYN", "EOPD", "DLD", "EMD", "MUXD", "EOPDE", "EOPLK", "SKB2", "SKB4", "VLDEF", "DTC", "DTCENV", "BZ", "BEOP", "LEAD"]
+              "SSUB", "SNEST", "SSIZED", "SF2", "SF2p", "DL1", "DL2", "EOP", "EMLAST", "EMCC", "MUXd", "MUXn", "MUXe", "MUXf", "SDYN", "EOPD", "DLD", "EMD", "MUXD", "EOPDE", "EOPLK", "SKB2", "SKB4", "VLDEF", "DTC", "DTCENV", "BZ", "BEOP", "LEAD", "SFV", "EMT", "EMTC", "TKS2"]
 SIGMA_3 = ["CC8", "V8", "V12b", "V8b4", "VDEF", "RES8", "LK", "TKS", "SFLAT", "SSIZED", "SF2p", "DL1", "EOP", "MUXd", "DTCENV", "BZ", "SDYN", "EOPD"]
 SIGMA_4 = ["CC8", "V12b", "SSIZED", "DL1", "MUXd", "BZ"]
 MODES = ["auto", "at", "hole"]
@@ -656,6 +671,11 @@ def layer_c_programs(quick: bool, overlap: bool = False) -> List[Dict[str, Any]]
         for mr in ("MRP1", "MRP2"):
             add([("CC8", "auto"), (mr, "auto")] + [(b, "auto") for b in body], kind="POS-RESPONSE", request=rq)
             add([("CC8", "auto"), (mr, "at")] + [(b, "auto") for b in body], kind="POS-RESPONSE", request=rq)
+    for body in (["V8"], ["EOP"]):
+        add([("CC8", "auto"), ("MRP02", "auto")] + [(b, "auto") for b in body], kind="POS-RESPONSE", request=rq)  # straddles the request's constant prefix
+    for tail in ([], [("V8", "auto")], [("BZ", "auto")]):
+        add([("CC8", "auto"), ("MRP1", "auto"), ("NRC4", "auto")] + tail, kind="NEG-RESPONSE", request=rq)
+        add([("CC8", "auto"), ("NRCV", "auto")] + tail, kind="NEG-RESPONSE", request=rq)
     add([("CC8", "auto"), ("MRP1", "auto"), ("NRCV", "auto")], kind="NEG-RESPONSE", request=rq)
     add([("CC8", "auto"), ("MRP1", "at"), ("NRCV", "at")], kind="NEG-RESPONSE", request=rq)
     return progs
@@ -680,6 +700,13 @@ def layer_b_units(quick: bool) -> List[Tuple[str, List[Dict[str, Any]]]]:
     for gen in (c07.gen_linear, c07.gen_scale_linear, c07.gen_tab_intp, c07.gen_rat_func, c07.gen_scale_rat_func, c07.gen_texttable):
         ms = [m for m in gen(True) if m[0] in ("u8", "i8") and "default_int" not in m[2]]
         methods += ms[::7] if quick else ms
+    # piecewise linear methods whose coefficients are not exactly representable in binary floating point: the segments meet
+    # at their common boundary only up to rounding (0.1*7 vs 0.3*7-1.4), so exact comparisons in the library show
+    cl = lambda v: {"v": v, "type": "CLOSED"}  # noqa: E731
+    for a, b, c, x0, x1 in ((0.1, 0.3, -1.4, 7, 20), (0.1, 0.2, -3.0, 30, 60), (0.7, 0.1, 4.2, 7, 50), (1.1, 0.3, 2.4, 3, 40)):
+        for pt in ("A_FLOAT64", "A_FLOAT32"):
+            methods.append(("u8", pt, {"cat": "SCALE-LINEAR", "i2p": [{"lo": cl(0), "hi": cl(x0), "num": [0, a], "den": [1]},
+                                                                     {"lo": cl(x0), "hi": cl(x1), "num": [c, b], "den": [1]}]}))
     progs = []
     for idx, (it, pt, cm) in enumerate(methods):
         dct = INTERNAL_TYPES[it]
